@@ -21,13 +21,13 @@ FILES = {
     "Common": {
         "file": "sparse/numba_backend/_common.py",
         "targets": [
-            dict(name="eyeLen", func="eye", select=("after", "from ._coo import COO", "if data_length == 0"),
-                 tail="return data_length",
+            dict(name="eyeLen", func="eye", select=("after", "from ._coo import COO", "if _d == 0"),
+                 tail="return _d", tail_from="_d == 0",
                  params=[("N", INT), ("M", OPT), ("k", INT)], ret="int",
                  note="number of ones: M defaulting, int casts, data_length arithmetic"),
-            dict(name="eyeCoord", func="eye", select=("after", "if data_length == 0", "coords = "),
-                 tail="return slice(n_coords, m_coords, 0)",
-                 consts={"np.arange(data_length, dtype=np.intp)": "t"},
+            dict(name="eyeCoord", func="eye", select=("after", "if _d == 0", "coords = "),
+                 tail="return slice(_a, _b, 0)", tail_from="np.stack([_a, _b])",
+                 consts={"np.arange(_L, dtype=np.intp)": "t"},  # position t of an arange, whatever its length is called
                  params=[("t", INT), ("k", INT)], ret="slice3",
                  note="coordinates of the t-th one, element-wise reading of the arange arithmetic; third component unused"),
         ],
